@@ -9,13 +9,13 @@ variable {Rec : Type}
 
 /-! ### decision phase -/
 
-theorem lookup_shift_zero (l : List (Nat × MsgType)) :
+theorem lookup_shift_zero {β : Type} (l : List (Nat × β)) :
     (l.map (fun it => (it.1 + 1, it.2))).lookup 0 = none := by
   induction l with
   | nil => rfl
   | cons a l ih => simp [List.lookup, ih]
 
-theorem lookup_shift_succ (l : List (Nat × MsgType)) (j : Nat) :
+theorem lookup_shift_succ {β : Type} (l : List (Nat × β)) (j : Nat) :
     (l.map (fun it => (it.1 + 1, it.2))).lookup (j + 1) = l.lookup j := by
   induction l with
   | nil => rfl
@@ -97,49 +97,49 @@ theorem fetch_inv {q0 : List (Msg Rec)} {c : Option (Msg Rec)} {q : List (Msg Re
   · cases t <;> cases q <;> simp [fetch, CacheInv, cacheOf]
   · cases t <;> simp [fetch, CacheInv]
 
-theorem sendPeer_cache_irrel (t : MsgType) (ht : t ≠ .sync) (snap c1 c2 : Msg Rec) (err : Nat) (clock : Int)
-    (p : Peer Rec) : sendPeer t snap c1 err clock p = sendPeer t snap c2 err clock p := by
-  cases t <;> simp_all [sendPeer, book, payload]
+theorem sendPeer_cache_irrel (t : MsgType) (ht : t ≠ .sync) (seen : Nat) (snap c1 c2 : Msg Rec) (err : Nat) (clock : Int)
+    (p : Peer Rec) : sendPeer t seen snap c1 err clock p = sendPeer t seen snap c2 err clock p := by
+  cases t <;> simp_all [sendPeer, book, bookContact, payload]
 
 /-- the device entry after its send-loop body. -/
-def entryAfter (snap : Msg Rec) (q0 : List (Msg Rec)) (outcome : Nat → Nat × Int) (j : Nat) (t : MsgType)
+def entryAfter (snap : Msg Rec) (q0 : List (Msg Rec)) (outcome : Nat → Nat × Int) (j : Nat) (t : MsgType × Nat)
     (e : String × Peer Rec) : String × Peer Rec :=
-  (e.1, (sendPeer t snap (cacheOf q0) (outcome j).1 (outcome j).2 e.2).1)
+  (e.1, (sendPeer t.1 t.2 snap (cacheOf q0) (outcome j).1 (outcome j).2 e.2).1)
 
 /-- what the send-loop body hands to `_tcp_send` for device `j`. -/
-def wireOf (snap : Msg Rec) (q0 : List (Msg Rec)) (j : Nat) (t : MsgType) (e : String × Peer Rec) : Wire Rec :=
-  ⟨j, t, flagsOf e.2, payload t snap (cacheOf q0) (prep t e.2)⟩
+def wireOf (snap : Msg Rec) (q0 : List (Msg Rec)) (j : Nat) (t : MsgType × Nat) (e : String × Peer Rec) : Wire Rec :=
+  ⟨j, t.1, flagsOf e.2, payload t.1 snap (cacheOf q0) (prep t.1 e.2)⟩
 
-theorem sendOne_none (snap : Msg Rec) (outcome : Nat → Nat × Int) (st : SendSt Rec) (it : Nat × MsgType)
+theorem sendOne_none (snap : Msg Rec) (outcome : Nat → Nat × Int) (st : SendSt Rec) (it : Nat × MsgType × Nat)
     (h : st.peers[it.1]? = none) : sendOne snap outcome st it = st := by
   simp [sendOne, h]
 
 theorem sendOne_some (snap : Msg Rec) (outcome : Nat → Nat × Int) (q0 : List (Msg Rec)) (st : SendSt Rec)
-    (it : Nat × MsgType) (e : String × Peer Rec) (h : st.peers[it.1]? = some e)
+    (it : Nat × MsgType × Nat) (e : String × Peer Rec) (h : st.peers[it.1]? = some e)
     (hc : CacheInv q0 st.cache st.queue) :
     (sendOne snap outcome st it).peers = st.peers.set it.1 (entryAfter snap q0 outcome it.1 it.2 e) ∧
     (sendOne snap outcome st it).wires = st.wires ++ [wireOf snap q0 it.1 it.2 e] ∧
     CacheInv q0 (sendOne snap outcome st it).cache (sendOne snap outcome st it).queue := by
-  obtain ⟨hinv, hsync⟩ := fetch_inv it.2 hc
-  have hp : ∀ err clock, sendPeer it.2 snap ((fetch it.2 st.cache st.queue).1.getD Msg.empty) err clock e.2
-      = sendPeer it.2 snap (cacheOf q0) err clock e.2 := by
+  obtain ⟨hinv, hsync⟩ := fetch_inv it.2.1 hc
+  have hp : ∀ err clock, sendPeer it.2.1 it.2.2 snap ((fetch it.2.1 st.cache st.queue).1.getD Msg.empty) err clock e.2
+      = sendPeer it.2.1 it.2.2 snap (cacheOf q0) err clock e.2 := by
     intro err clock
-    by_cases ht : it.2 = .sync
+    by_cases ht : it.2.1 = .sync
     · rw [hsync ht]; rfl
-    · exact sendPeer_cache_irrel _ ht _ _ _ _ _ _
+    · exact sendPeer_cache_irrel _ ht _ _ _ _ _ _ _
   simp only [sendOne, h, hp]
   refine ⟨rfl, ?_, hinv⟩
   simp [wireOf, sendPeer]
 
 theorem sendOne_cacheInv (snap : Msg Rec) (outcome : Nat → Nat × Int) (q0 : List (Msg Rec)) (st : SendSt Rec)
-    (it : Nat × MsgType) (hc : CacheInv q0 st.cache st.queue) :
+    (it : Nat × MsgType × Nat) (hc : CacheInv q0 st.cache st.queue) :
     CacheInv q0 (sendOne snap outcome st it).cache (sendOne snap outcome st it).queue := by
   cases h : st.peers[it.1]? with
   | none => rw [sendOne_none _ _ _ _ h]; exact hc
   | some e => exact (sendOne_some snap outcome q0 st it e h hc).2.2
 
 theorem sendOne_peers_ne (snap : Msg Rec) (outcome : Nat → Nat × Int) (st : SendSt Rec)
-    (it : Nat × MsgType) (j : Nat) (hj : it.1 ≠ j) :
+    (it : Nat × MsgType × Nat) (j : Nat) (hj : it.1 ≠ j) :
     (sendOne snap outcome st it).peers[j]? = st.peers[j]? := by
   cases h : st.peers[it.1]? with
   | none => rw [sendOne_none _ _ _ _ h]
@@ -147,7 +147,7 @@ theorem sendOne_peers_ne (snap : Msg Rec) (outcome : Nat → Nat × Int) (st : S
 
 /-- per device: the entry after the send phase. -/
 theorem sendPhase_peers (snap : Msg Rec) (outcome : Nat → Nat × Int) (q0 : List (Msg Rec)) (j : Nat) :
-    ∀ (ol : List (Nat × MsgType)) (st : SendSt Rec), ol.Pairwise (fun a b => a.1 < b.1) →
+    ∀ (ol : List (Nat × MsgType × Nat)) (st : SendSt Rec), ol.Pairwise (fun a b => a.1 < b.1) →
       CacheInv q0 st.cache st.queue →
       (sendPhase snap outcome st ol).peers[j]? =
         match ol.lookup j with
@@ -186,7 +186,7 @@ theorem sendPhase_peers (snap : Msg Rec) (outcome : Nat → Nat × Int) (q0 : Li
 
 /-- the wire log of the send phase. -/
 theorem sendPhase_wires (snap : Msg Rec) (outcome : Nat → Nat × Int) (q0 : List (Msg Rec)) :
-    ∀ (ol : List (Nat × MsgType)) (st : SendSt Rec), ol.Pairwise (fun a b => a.1 < b.1) →
+    ∀ (ol : List (Nat × MsgType × Nat)) (st : SendSt Rec), ol.Pairwise (fun a b => a.1 < b.1) →
       CacheInv q0 st.cache st.queue →
       (sendPhase snap outcome st ol).wires =
         st.wires ++ ol.filterMap (fun it => (st.peers[it.1]?).map (wireOf snap q0 it.1 it.2)) := by
@@ -212,8 +212,8 @@ theorem sendPhase_wires (snap : Msg Rec) (outcome : Nat → Nat × Int) (q0 : Li
       rw [(sendOne_some snap outcome q0 st it e h hc).2.1]
       simp [h]
 
-theorem find_wire (F : Nat × MsgType → Option (Wire Rec)) (hF : ∀ it w, F it = some w → w.peer = it.1) (j : Nat) :
-    ∀ (ol : List (Nat × MsgType)), ol.Pairwise (fun a b => a.1 < b.1) →
+theorem find_wire (F : Nat × MsgType × Nat → Option (Wire Rec)) (hF : ∀ it w, F it = some w → w.peer = it.1) (j : Nat) :
+    ∀ (ol : List (Nat × MsgType × Nat)), ol.Pairwise (fun a b => a.1 < b.1) →
       (ol.filterMap F).find? (fun w => w.peer == j) = (ol.lookup j).bind (fun t => F (j, t)) := by
   intro ol
   induction ol with
@@ -249,7 +249,7 @@ theorem find_wire (F : Nat × MsgType → Option (Wire Rec)) (hF : ∀ it w, F i
       | none => exact ih hrest
 
 theorem sendPhase_queue (snap : Msg Rec) (outcome : Nat → Nat × Int) (q0 : List (Msg Rec)) :
-    ∀ (ol : List (Nat × MsgType)) (st : SendSt Rec), CacheInv q0 st.cache st.queue →
+    ∀ (ol : List (Nat × MsgType × Nat)) (st : SendSt Rec), CacheInv q0 st.cache st.queue →
       CacheInv q0 (sendPhase snap outcome st ol).cache (sendPhase snap outcome st ol).queue := by
   intro ol
   induction ol with
@@ -343,7 +343,22 @@ def jlog (j : Nat) : List (Obs Rec) → List JEv
 
 theorem step_cfg (s : TState Rec) (x : Step Rec) : (step s x).1.cfg = s.cfg := by
   cases x <;> simp [step, outIter, push, incoming]
-  split <;> rfl
+
+theorem incomingPeers_ne (peers : List (String × Peer Rec)) (i flags j : Nat) (h : i ≠ j) :
+    (incomingPeers peers i flags)[j]? = peers[j]? := by
+  unfold incomingPeers
+  split
+  · rfl
+  · simp [List.getElem?_set_ne h]
+
+theorem incomingPeers_self (peers : List (String × Peer Rec)) (i flags : Nat) :
+    (incomingPeers peers i flags)[i]? = (peers[i]?).map (fun e => (e.1, onIncomingFlags flags e.2)) := by
+  unfold incomingPeers
+  cases he : peers[i]? with
+  | none => simp [he]
+  | some e =>
+    have hlt : i < peers.length := (List.getElem?_eq_some_iff.mp he).1
+    simp [List.getElem?_set_self hlt]
 
 /-- the three ways one step can concern device `j`. -/
 theorem step_j (s : TState Rec) (x : Step Rec) (j : Nat) :
@@ -353,7 +368,7 @@ theorem step_j (s : TState Rec) (x : Step Rec) (j : Nat) :
     (∃ now snap outcome e t, x = .pass now snap outcome ∧ s.peers[j]? = some e ∧
       decideOne s.cfg now s.queue.isEmpty e.2 = some t ∧
       jev j (step s x).2 = [.att ⟨now, s.queue.isEmpty, t, flagsOf e.2, (outcome j).1, (outcome j).2⟩] ∧
-      (step s x).1.peers[j]? = some (entryAfter snap s.queue outcome j t e)) := by
+      (step s x).1.peers[j]? = some (entryAfter snap s.queue outcome j (t, e.2.resets) e)) := by
   cases x with
   | push m => left; simp [step, jev, push]
   | incoming i flags =>
@@ -361,22 +376,16 @@ theorem step_j (s : TState Rec) (x : Step Rec) (j : Nat) :
     · right; left
       obtain ⟨rfl, hf⟩ := h
       simp only [step, jev, hf, and_self, if_true, incoming, true_and]
-      cases he : s.peers[i]? with
-      | none => simp [he]
-      | some e =>
-        have hlt : i < s.peers.length := (List.getElem?_eq_some_iff.mp he).1
-        simp [List.getElem?_set_self hlt, onIncomingFlags, hf]
+      rw [incomingPeers_self]
+      simp [onIncomingFlags, hf]
     · left
       simp only [step, jev, h, if_false, incoming, true_and]
-      cases he : s.peers[i]? with
-      | none => simp
-      | some e =>
-        by_cases hij : i = j
-        · subst hij
-          have hf : ¬ (flags &&& FLAG_RESET = FLAG_RESET) := fun hf => h ⟨rfl, hf⟩
-          have hlt : i < s.peers.length := (List.getElem?_eq_some_iff.mp he).1
-          simp [he, List.getElem?_set_self hlt, onIncomingFlags, hf]
-        · simp [List.getElem?_set_ne hij]
+      by_cases hij : i = j
+      · subst hij
+        have hf : ¬ (flags &&& FLAG_RESET = FLAG_RESET) := fun hf => h ⟨rfl, hf⟩
+        rw [incomingPeers_self]
+        cases s.peers[i]? <;> simp [onIncomingFlags, hf]
+      · exact incomingPeers_ne _ _ _ _ hij
   | pass now snap outcome =>
     have hw := outIter_wire s now snap outcome j
     have hp := outIter_peer s now snap outcome j
@@ -395,16 +404,260 @@ theorem step_j (s : TState Rec) (x : Step Rec) (j : Nat) :
         rw [hd] at hw hp
         simp only [Option.map_none] at hw
         simp [step, jev, hw, hp]
-      | some t =>
+      | some ts =>
         right; right
         rw [hd] at hw hp
         simp only [Option.map_some] at hw
-        refine ⟨now, snap, outcome, e, t, rfl, rfl, ?_, ?_, ?_⟩
-        · unfold decideEntry at hd
-          split at hd
-          · cases hd
-          · exact hd
-        · simp [step, jev, hw, wireOf]
-        · simp [step, hp]
+        unfold decideEntry at hd
+        split at hd
+        · cases hd
+        · cases hdo : decideOne s.cfg now s.queue.isEmpty e.2 with
+          | none => rw [hdo] at hd; cases hd
+          | some t =>
+            rw [hdo] at hd
+            simp only [Option.map_some, Option.some.injEq] at hd
+            subst hd
+            refine ⟨now, snap, outcome, e, t, rfl, rfl, hdo, ?_, ?_⟩
+            · simp [step, jev, hw, wireOf]
+            · simp [step, hp]
+
+/-! ## the pass in small steps (`passSmall`): invariants under every interleaving (used by Props/C07) -/
+
+/-! ### the two fields of device `j` that the two threads share -/
+
+def lcOf (ps : List (String × Peer Rec)) (j : Nat) : Int :=
+  match ps[j]? with
+  | some e => e.2.lastComms
+  | none => 0
+
+def rsOf (ps : List (String × Peer Rec)) (j : Nat) : Nat :=
+  match ps[j]? with
+  | some e => e.2.resets
+  | none => 0
+
+/-- a property of (last_comms, resets) that a handled RESET cannot falsify. -/
+def Stable (Q : Int → Nat → Prop) : Prop := ∀ lc rs, Q lc rs → Q 0 (rs + 1)
+
+theorem incoming_fields (ps : List (String × Peer Rec)) (i fl j : Nat) :
+    (rsOf (incomingPeers ps i fl) j = rsOf ps j ∧ lcOf (incomingPeers ps i fl) j = lcOf ps j) ∨
+    (rsOf (incomingPeers ps i fl) j = rsOf ps j + 1 ∧ lcOf (incomingPeers ps i fl) j = 0) := by
+  by_cases hij : i = j
+  · subst hij
+    unfold lcOf rsOf
+    rw [incomingPeers_self]
+    cases ps[i]? with
+    | none => left; simp
+    | some e =>
+      by_cases hf : fl &&& FLAG_RESET = FLAG_RESET
+      · right; simp [onIncomingFlags, hf, Peer.clearLast]
+      · left; simp [onIncomingFlags, hf]
+  · left
+    unfold lcOf rsOf
+    rw [incomingPeers_ne _ _ _ _ hij]
+    exact ⟨rfl, rfl⟩
+
+theorem applyInc_stable (Q : Int → Nat → Prop) (hS : Stable Q) (j : Nat) (evs : List (Nat × Nat)) :
+    ∀ (ps : List (String × Peer Rec)), Q (lcOf ps j) (rsOf ps j) →
+      Q (lcOf (applyInc ps evs) j) (rsOf (applyInc ps evs) j) := by
+  induction evs with
+  | nil => intro ps h; exact h
+  | cons ev evs ih =>
+    intro ps h
+    simp only [applyInc, List.foldl_cons]
+    apply ih
+    rcases incoming_fields ps ev.1 ev.2 j with ⟨h1, h2⟩ | ⟨h1, h2⟩
+    · rw [h1, h2]; exact h
+    · rw [h1, h2]; exact hS _ _ h
+
+/-- a write by the outgoing thread that leaves `last_comms` and `resets` of the written device alone. -/
+theorem set_keep (ps : List (String × Peer Rec)) (i j : Nat) (e0 : String × Peer Rec) (u : String) (p' : Peer Rec)
+    (h0 : ps[i]? = some e0) (hl : p'.lastComms = e0.2.lastComms) (hr : p'.resets = e0.2.resets) :
+    lcOf (ps.set i (u, p')) j = lcOf ps j ∧ rsOf (ps.set i (u, p')) j = rsOf ps j := by
+  have hlt : i < ps.length := (List.getElem?_eq_some_iff.mp h0).1
+  by_cases hij : i = j
+  · subst hij
+    simp [lcOf, rsOf, List.getElem?_set_self hlt, h0, hl, hr]
+  · simp [lcOf, rsOf, List.getElem?_set_ne hij]
+
+theorem set_other (ps : List (String × Peer Rec)) (i j : Nat) (x : String × Peer Rec) (hij : i ≠ j) :
+    lcOf (ps.set i x) j = lcOf ps j ∧ rsOf (ps.set i x) j = rsOf ps j := by
+  simp [lcOf, rsOf, List.getElem?_set_ne hij]
+
+theorem set_self (ps : List (String × Peer Rec)) (j : Nat) (e0 : String × Peer Rec) (u : String) (p' : Peer Rec)
+    (h0 : ps[j]? = some e0) :
+    lcOf (ps.set j (u, p')) j = p'.lastComms ∧ rsOf (ps.set j (u, p')) j = p'.resets := by
+  have hlt : j < ps.length := (List.getElem?_eq_some_iff.mp h0).1
+  simp [lcOf, rsOf, List.getElem?_set_self hlt]
+
+/-- K(i): the only write of `last_comms` by the outgoing thread is `contacted`, on success, and only
+if the reset counter still has the value seen at the decision. -/
+theorem bookContact_fields (t : MsgType) (flags err : Nat) (clock : Int) (seen : Nat) (cache : Msg Rec) (p : Peer Rec) :
+    (bookContact t flags err clock seen cache p).resets = p.resets ∧
+    ((bookContact t flags err clock seen cache p).lastComms = p.lastComms ∨
+     (err = 0 ∧ p.resets = seen ∧ (bookContact t flags err clock seen cache p).lastComms = max 0 clock)) := by
+  cases t <;> by_cases he : err = 0 <;> by_cases hs : p.resets = seen <;>
+    by_cases hf : flags &&& FLAG_RESET = FLAG_RESET <;>
+    simp [bookContact, he, hs, hf, clearFlagIfSent, Peer.contacted, Peer.setFlagReset, Peer.clearStash, Peer.appendStash]
+
+theorem prep_fields (t : MsgType) (p : Peer Rec) : (prep t p).lastComms = p.lastComms ∧ (prep t p).resets = p.resets := by
+  cases t <;> simp [prep, Peer.clearStash]
+
+theorem foldl_pres {α β : Type} (f : β → α → β) (Good : β → Prop) (l : List α)
+    (hstep : ∀ b a, a ∈ l → Good b → Good (f b a)) : ∀ b, Good b → Good (l.foldl f b) := by
+  induction l with
+  | nil => intro b h; exact h
+  | cons a l ih =>
+    intro b h
+    simp only [List.foldl_cons]
+    exact ih (fun b a' ha' hb => hstep b a' (List.mem_cons_of_mem _ ha') hb) _ (hstep b a (List.mem_cons_self ..) h)
+
+/-! ### send phase: one entry -/
+
+/-- a stable property of device `j`'s (last_comms, resets) survives the whole body of one send-loop
+iteration — with the listener's steps anywhere inside it — provided it survives the one write
+`contacted` can make for this entry. -/
+theorem sendSmall_pres (Q : Int → Nat → Prop) (hS : Stable Q) (j : Nat) (snap : Msg Rec) (outcome : Nat → Nat × Int)
+    (sched : Point → List (Nat × Nat)) (st : SendSt Rec) (it : Nat × MsgType × Nat)
+    (hK : it.1 = j → (outcome j).1 = 0 → ∀ lc, Q lc it.2.2 → Q (max 0 (outcome j).2) it.2.2)
+    (h : Q (lcOf st.peers j) (rsOf st.peers j)) :
+    Q (lcOf (sendSmall true snap outcome sched st it).peers j) (rsOf (sendSmall true snap outcome sched st it).peers j) := by
+  unfold sendSmall
+  have h0 := applyInc_stable Q hS j (sched (.beforePre it.1)) _ h
+  cases he0 : (applyInc st.peers (sched (.beforePre it.1)))[it.1]? with
+  | none => simpa [he0] using h0
+  | some e0 =>
+    simp only [he0]
+    have hk1 := set_keep _ it.1 j e0 e0.1 (prep it.2.1 e0.2) he0 (prep_fields _ _).1 (prep_fields _ _).2
+    have h1 : Q (lcOf ((applyInc st.peers (sched (.beforePre it.1))).set it.1 (e0.1, prep it.2.1 e0.2)) j)
+        (rsOf ((applyInc st.peers (sched (.beforePre it.1))).set it.1 (e0.1, prep it.2.1 e0.2)) j) := by
+      rw [hk1.1, hk1.2]; exact h0
+    have h2 := applyInc_stable Q hS j (sched (.duringSend it.1)) _ h1
+    generalize applyInc ((applyInc st.peers (sched (.beforePre it.1))).set it.1 (e0.1, prep it.2.1 e0.2))
+      (sched (.duringSend it.1)) = ps1 at h2 ⊢
+    cases he1 : ps1[it.1]? with
+    | none => simpa [he1] using h2
+    | some e1 =>
+      simp only [if_true]
+      generalize hpk : bookContact it.2.1 (flagsOf e0.2) (outcome it.1).1 (outcome it.1).2 it.2.2
+        ((fetch it.2.1 st.cache st.queue).1.getD Msg.empty) e1.2 = pk
+      have hbf := bookContact_fields it.2.1 (flagsOf e0.2) (outcome it.1).1 (outcome it.1).2 it.2.2
+        ((fetch it.2.1 st.cache st.queue).1.getD Msg.empty) e1.2
+      rw [hpk] at hbf
+      have h3 : Q (lcOf (ps1.set it.1 (e1.1, pk)) j) (rsOf (ps1.set it.1 (e1.1, pk)) j) := by
+        rcases hbf with ⟨hr, hl | ⟨herr, hseen, hl⟩⟩
+        · have := set_keep ps1 it.1 j e1 e1.1 pk he1 hl hr
+          rw [this.1, this.2]; exact h2
+        · by_cases hij : it.1 = j
+          · have hs := set_self ps1 j e1 e1.1 pk (by rw [← hij]; exact he1)
+            rw [hij] at hl herr
+            have hrs : rsOf ps1 j = it.2.2 := by
+              unfold rsOf; rw [← hij, he1]; exact hseen
+            rw [hij, hs.1, hs.2, hl, hr, hseen]
+            rw [hrs] at h2
+            exact hK hij herr _ h2
+          · have := set_other ps1 it.1 j (e1.1, pk) hij
+            rw [this.1, this.2]; exact h2
+      have h4 := applyInc_stable Q hS j (sched (.beforeAttempt it.1)) _ h3
+      generalize applyInc (ps1.set it.1 (e1.1, pk)) (sched (.beforeAttempt it.1)) = ps2 at h4 ⊢
+      cases he2 : ps2[it.1]? with
+      | none => simpa [he2] using h4
+      | some e2 =>
+        simp only
+        have := set_keep ps2 it.1 j e2 e2.1 (e2.2.setLastAttempt (outcome it.1).2) he2 rfl rfl
+        rw [this.1, this.2]; exact h4
+
+/-! ### decision phase: one device -/
+
+/-- what is known of an `outlist` entry for device `j`: it was chosen by the mode-selection tree from
+a `last_comms` reading `lc` that satisfies `L lc seen`. -/
+def AllD (cfg : Periods) (now : Int) (j : Nat) (L : Int → Nat → Prop) (ol : List (Nat × MsgType × Nat)) : Prop :=
+  ∀ t seen, (j, t, seen) ∈ ol → ∃ lc a q st, selectMode cfg (now - lc) a q st = some t ∧ L lc seen
+
+theorem decideSmall_pres (Q : Int → Nat → Prop) (hS : Stable Q) (L : Int → Nat → Prop) (j : Nat)
+    (hL : ∀ lc1 seen lc rs, Q lc1 seen → Q lc rs → rs ≥ seen → L lc seen)
+    (cfg : Periods) (self : String) (now : Int) (qE : Nat → Bool) (sched : Point → List (Nat × Nat))
+    (acc : List (String × Peer Rec) × List (Nat × MsgType × Nat)) (i : Nat)
+    (h : Q (lcOf acc.1 j) (rsOf acc.1 j) ∧ AllD cfg now j L acc.2) :
+    Q (lcOf (decideSmall cfg self now qE sched acc i).1 j) (rsOf (decideSmall cfg self now qE sched acc i).1 j) ∧
+    AllD cfg now j L (decideSmall cfg self now qE sched acc i).2 := by
+  obtain ⟨hq, hd⟩ := h
+  unfold decideSmall
+  cases hacc : acc.1[i]? with
+  | none => exact ⟨hq, hd⟩
+  | some e =>
+    simp only
+    by_cases hself : e.1 = self
+    · simp only [hself, if_true]; exact ⟨hq, hd⟩
+    · simp only [hself, if_false]
+      have h1 := applyInc_stable Q hS j (sched (.beforeResets i)) _ hq
+      generalize applyInc acc.1 (sched (.beforeResets i)) = ps1 at h1 ⊢
+      cases he1 : ps1[i]? with
+      | none => exact ⟨h1, hd⟩
+      | some e1 =>
+        simp only
+        have h2 := applyInc_stable Q hS j (sched (.beforeComms i)) _ h1
+        have hm2 := applyInc_stable (fun _ rs => rs ≥ rsOf ps1 j) (by intro _ rs h; simp at h ⊢; omega) j
+          (sched (.beforeComms i)) ps1 (by simp)
+        generalize applyInc ps1 (sched (.beforeComms i)) = ps2 at h2 hm2 ⊢
+        cases he2 : ps2[i]? with
+        | none => exact ⟨h2, hd⟩
+        | some e2 =>
+          simp only
+          have h3 := applyInc_stable Q hS j (sched (.beforeRest i)) _ h2
+          generalize applyInc ps2 (sched (.beforeRest i)) = ps3 at h3 ⊢
+          cases he3 : ps3[i]? with
+          | none => exact ⟨h3, hd⟩
+          | some e3 =>
+            simp only
+            cases hsel : selectMode cfg (now - e2.2.lastComms) (now - e3.2.lastAttempt) (qE i) e3.2.sizeStash with
+            | none => exact ⟨h3, hd⟩
+            | some t =>
+              refine ⟨h3, ?_⟩
+              intro t' seen' hmem
+              simp only [List.mem_append, List.mem_singleton, Prod.mk.injEq] at hmem
+              rcases hmem with hmem | ⟨hji, rfl, rfl⟩
+              · exact hd t' seen' hmem
+              · subst hji
+                refine ⟨e2.2.lastComms, _, _, _, hsel, ?_⟩
+                have e1rs : rsOf ps1 j = e1.2.resets := by simp [rsOf, he1]
+                have e2lc : lcOf ps2 j = e2.2.lastComms := by simp [lcOf, he2]
+                rw [e1rs] at h1 hm2
+                rw [e2lc] at h2
+                exact hL _ _ _ _ h1 h2 hm2
+
+/-! ### the whole pass -/
+
+theorem passSmall_pres (Q : Int → Nat → Prop) (hS : Stable Q) (L : Int → Nat → Prop) (j : Nat)
+    (hL : ∀ lc1 seen lc rs, Q lc1 seen → Q lc rs → rs ≥ seen → L lc seen)
+    (Q2 : List (Nat × MsgType × Nat) → Int → Nat → Prop) (hS2 : ∀ ol, Stable (Q2 ol))
+    (s : TState Rec) (now : Int) (qE : Nat → Bool) (snap : Msg Rec) (outcome : Nat → Nat × Int)
+    (sched : Point → List (Nat × Nat))
+    (hQ2 : ∀ ol lc rs, Q lc rs → Q2 ol lc rs)
+    (hK : ∀ ol, AllD s.cfg now j L ol → ∀ t seen, (j, t, seen) ∈ ol → (outcome j).1 = 0 →
+      ∀ lc, Q2 ol lc seen → Q2 ol (max 0 (outcome j).2) seen)
+    (h : Q (lcOf s.peers j) (rsOf s.peers j)) :
+    let r := passSmall s now qE snap outcome sched
+    AllD s.cfg now j L r.2.2 ∧ Q2 r.2.2 (lcOf r.1.peers j) (rsOf r.1.peers j) := by
+  intro r
+  have hdec := foldl_pres (decideSmall s.cfg s.self now qE sched)
+    (fun acc => Q (lcOf acc.1 j) (rsOf acc.1 j) ∧ AllD s.cfg now j L acc.2) (List.range s.peers.length)
+    (fun acc i _ hacc => decideSmall_pres Q hS L j hL s.cfg s.self now qE sched acc i hacc)
+    (s.peers, []) ⟨h, by intro t seen hm; simp at hm⟩
+  generalize hd : (List.range s.peers.length).foldl (decideSmall s.cfg s.self now qE sched) (s.peers, []) = d at hdec
+  obtain ⟨hq, hall⟩ := hdec
+  have hsend := foldl_pres (sendSmall true snap outcome sched)
+    (fun st => Q2 d.2 (lcOf st.peers j) (rsOf st.peers j)) d.2
+    (fun st it hit hst => sendSmall_pres (Q2 d.2) (hS2 d.2) j snap outcome sched st it
+      (by
+        intro hij herr lc hlc
+        obtain ⟨i, t, seen⟩ := it
+        simp only at hij; subst hij
+        exact hK d.2 hall t seen hit herr lc hlc) hst)
+    ⟨d.1, s.queue, none, []⟩ (hQ2 _ _ _ hq)
+  have hend := applyInc_stable (Q2 d.2) (hS2 d.2) j (sched .atEnd) _ hsend
+  have hr : r = passSmall s now qE snap outcome sched := rfl
+  simp only [passSmall, passSmallG, hd] at hr
+  rw [hr]
+  exact ⟨hall, hend⟩
 
 end Bobo.Tcp
